@@ -451,8 +451,48 @@ func (o *c07Oracle) write() {
 	for _, q := range d.W.InFlight() {
 		before[q.ID] = true
 	}
+	// socket fault: the operating system refuses the send (buffer full, write deadline passed, no route);
+	// the write then either fails or reports fewer bytes - the counters follow what Write reported
+	sockFault := !isStun && c.T.Bias(1, 8, "sock-write-error")
+	var faulted []*simnet.Sock
+	if sockFault {
+		for _, so := range d.W.Sockets() {
+			if so.Host() == s.host && so.Tag != "service" && !so.Closed() {
+				d.W.Lock()
+				so.WriteErr = errInjected
+				d.W.Unlock()
+				faulted = append(faulted, so)
+			}
+		}
+		c.Fault("socket-write-error")
+	}
 	n, err := s.ag.Conn.Write(payload)
 	d.S.Settle()
+	for _, so := range faulted {
+		d.W.Lock()
+		so.WriteErr = nil
+		d.W.Unlock()
+	}
+	if sockFault {
+		for _, q := range d.W.InFlight() {
+			if !before[q.ID] && bytes.Equal(q.Payload, payload) {
+				c.Failf("C07/datagram-despite-socket-error", "%s: the socket refused the send, yet the datagram is on the wire", s.ag.Name)
+				return
+			}
+		}
+		if n < 0 || n > len(payload) {
+			c.Failf("C07/write-count", "%s Write(len %d) returned n=%d", s.ag.Name, len(payload), n)
+			return
+		}
+		// whatever Write reported as accepted is what the counters may show (checked by check())
+		s.sentBytes += uint64(n)
+		if n > 0 && pre.Selected != "" && s.selKey == pre.Selected {
+			s.tallyPS++
+			s.tallyBS += uint64(n)
+		}
+		c.Logf("write %s len=%d with socket error -> n=%d err=%v", s.ag.Name, len(payload), n, err != nil)
+		return
+	}
 	ids := hostSockIDs(d.W, s.host)
 	var out []*simnet.Datagram
 	for _, q := range d.W.InFlight() {
